@@ -11,6 +11,7 @@ package main
 import (
 	"bytes"
 	"context"
+	"encoding/json"
 	"fmt"
 	"os"
 	"path/filepath"
@@ -364,9 +365,47 @@ type outcome struct {
 	events int
 	ops    int
 	fired  string
+	// the GraphQL types the node serves before and after the call (object types and their fields)
+	gqlBefore, gqlAfter string
 }
 
 const barrierName = event.Name("verif-barrier")
+
+// servedTypes lists the object types (with their fields) of the GraphQL schema the node serves right now; the types
+// generated per collection (filter arguments, mutation inputs) follow from these
+func servedTypes(ctx context.Context, n *vnode.Node) string {
+	res := n.DB.ExecRequest(ctx, `query { __schema { types { name kind fields { name } } } }`)
+	if len(res.GQL.Errors) > 0 {
+		return fmt.Sprint("error: ", res.GQL.Errors)
+	}
+	b, _ := json.Marshal(res.GQL.Data)
+	var m struct {
+		Schema struct {
+			Types []struct {
+				Name   string
+				Kind   string
+				Fields []struct{ Name string }
+			}
+		} `json:"__schema"`
+	}
+	if err := json.Unmarshal(b, &m); err != nil {
+		return "error: " + err.Error()
+	}
+	var out []string
+	for _, t := range m.Schema.Types {
+		if t.Kind != "OBJECT" || strings.HasPrefix(t.Name, "__") {
+			continue
+		}
+		var fs []string
+		for _, f := range t.Fields {
+			fs = append(fs, f.Name)
+		}
+		sort.Strings(fs)
+		out = append(out, t.Name+"("+strings.Join(fs, ",")+")")
+	}
+	sort.Strings(out)
+	return strings.Join(out, " ")
+}
 
 func runOnce(ctx context.Context, p *prior, op opDef, k int, dir string) (o outcome) {
 	inner := newBadger()
@@ -377,6 +416,7 @@ func runOnce(ctx context.Context, p *prior, op opDef, k int, dir string) (o outc
 	sub, err := n.DB.Events().Subscribe(event.UpdateName, barrierName)
 	must(err)
 	e := &env{ctx: ctx, n: n, p: p, dir: dir}
+	o.gqlBefore = servedTypes(ctx, n)
 	func() {
 		defer func() {
 			if r := recover(); r != nil {
@@ -413,9 +453,33 @@ func runOnce(ctx context.Context, p *prior, op opDef, k int, dir string) (o outc
 		}
 	}
 	o.after = dump(ctx, inner)
+	o.gqlAfter = servedTypes(ctx, n)
 	n.DB.Close()
 	_ = inner.Close()
 	return o
+}
+
+func firstDiffWord(a, b string) string {
+	as, bs := strings.Fields(a), strings.Fields(b)
+	seen := map[string]bool{}
+	for _, x := range as {
+		seen[x] = true
+	}
+	for _, x := range bs {
+		if !seen[x] {
+			return "now serves " + x
+		}
+	}
+	seenB := map[string]bool{}
+	for _, x := range bs {
+		seenB[x] = true
+	}
+	for _, x := range as {
+		if !seenB[x] {
+			return "no longer serves " + x
+		}
+	}
+	return "order"
 }
 
 func main() {
@@ -466,6 +530,9 @@ func main() {
 			if o.events != 0 {
 				return "event-without-commit", fmt.Sprintf("%d update events although the call failed", o.events)
 			}
+			if o.gqlAfter != o.gqlBefore {
+				return "err-changed", "the GraphQL types the node serves changed although the call failed: " + firstDiffWord(o.gqlBefore, o.gqlAfter)
+			}
 			return "atomic", "err-unchanged"
 		default:
 			if eq, why := equalDump(j.ff.after, o.after); !eq {
@@ -476,6 +543,9 @@ func main() {
 			}
 			if o.events != j.ff.events {
 				return "ok-events-differ", fmt.Sprintf("%d update events, fault-free run publishes %d", o.events, j.ff.events)
+			}
+			if o.gqlAfter != j.ff.gqlAfter {
+				return "ok-partial", "the GraphQL types the node serves differ from those after the fault-free run: " + firstDiffWord(j.ff.gqlAfter, o.gqlAfter)
 			}
 			return "atomic", "ok-complete"
 		}
